@@ -1286,6 +1286,369 @@ Proof.
       rewrite recovery_some_m by exact B'. apply final_recovered_m.
 Qed.
 
+(* ------------------------------------------------------------------ recovery in general position (A -> B):
+   k application messages b .. b+k-1 and then m + 1 Logons b+k .. L of A have not reached B *)
+
+Definition logons (s : Z) (m : nat) : list (Z * msg) := gen (fun s _ => (s, wlogon cfgA s)) s s m.
+
+Lemma incr_gen_app : forall (g : Z -> Z -> msg) k s i l2,
+  incr l2 -> (forall r, hd_error l2 = Some r -> s + Z.of_nat k <= fst r) ->
+  incr (gen (fun s i => (s, g s i)) s i k ++ l2).
+Proof.
+  induction k as [|k IH]; intros s i l2 H1 H2; [exact H1|].
+  cbn [gen app]. cbn [incr]. split.
+  - destruct k.
+    + cbn [gen app]. destruct l2 as [|r l2]; [exact I|]. specialize (H2 r eq_refl). cbn [fst]. lia.
+    + cbn [gen app fst]. lia.
+  - apply IH; [exact H1|]. intros r Hr. specialize (H2 r Hr). lia.
+Qed.
+
+Lemma recover_range_gen : forall (g1 g2 : Z -> Z -> msg) pre b i k j m M,
+  keys_lt b pre -> b + Z.of_nat k + Z.of_nat m <= M ->
+  sort_rows (filter (fun r : Z * msg => (b <=? fst r) && (fst r <=? M))
+                    (pre ++ gen (fun s i => (s, g1 s i)) b i k ++ gen (fun s i => (s, g2 s i)) (b + Z.of_nat k) j m))
+  = gen (fun s i => (s, g1 s i)) b i k ++ gen (fun s i => (s, g2 s i)) (b + Z.of_nat k) j m.
+Proof.
+  intros * K H. rewrite !filter_app.
+  rewrite (filter_false _ _ pre).
+  2:{ eapply Forall_impl; [|exact K]. cbn. intros [a x] Ha. cbn in *.
+      replace (b <=? a) with false by (symmetry; apply Z.leb_gt; lia). reflexivity. }
+  rewrite (filter_true _ _ (gen _ b i k)).
+  2:{ apply gen_Forall. intros q Hq. cbn.
+      replace (b <=? b + Z.of_nat q) with true by (symmetry; apply Z.leb_le; lia).
+      replace (b + Z.of_nat q <=? M) with true by (symmetry; apply Z.leb_le; lia). reflexivity. }
+  rewrite (filter_true _ _ (gen _ (b + Z.of_nat k) j m)).
+  2:{ apply gen_Forall. intros q Hq. cbn.
+      replace (b <=? b + Z.of_nat k + Z.of_nat q) with true by (symmetry; apply Z.leb_le; lia).
+      replace (b + Z.of_nat k + Z.of_nat q <=? M) with true by (symmetry; apply Z.leb_le; lia). reflexivity. }
+  cbn [app]. apply sort_rows_incr. apply incr_gen_app.
+  - rewrite <- (app_nil_r (gen _ (b + Z.of_nat k) j m)). apply incr_gen_app; [exact I|]. intros r Hr. discriminate.
+  - intros r Hr. destruct m; [discriminate|]. cbn in Hr. injection Hr as <-. cbn [fst]. lia.
+Qed.
+
+(* the loop over journaled Logons: nothing is written, the gap to fill grows *)
+Lemma replay_logons : forall m s gfb gfe w rest,
+  0 < s -> s + Z.of_nat (S m) <= I64MAX ->
+  replay_loop cfgA (logons s (S m) ++ rest) gfb gfe w
+  = replay_loop cfgA rest gfb (s + Z.of_nat (S m)) w.
+Proof.
+  induction m as [|m IH]; intros * B1 B2.
+  - unfold logons. cbn [gen app]. timeout 100 (ev_with idtac).
+    replace (s + Z.of_nat 1) with (s + 1) by lia.
+    destruct (replay_loop _ rest gfb (s + 1) w) as [v w' e]. reflexivity.
+  - unfold logons. rewrite (gen_S _ _ (S m)). cbn [app]. fold (logons (s + 1) (S m)).
+    remember (logons (s + 1) (S m) ++ rest) as tl eqn:Etl.
+    timeout 100 (ev_with idtac). subst tl.
+    replace (s + Z.of_nat (S (S m))) with (s + 1 + Z.of_nat (S m)) by lia.
+    rewrite <- (IH (s + 1) gfb (s + 1) w rest) by lia.
+    destruct (replay_loop _ (logons (s + 1) (S m) ++ rest) gfb (s + 1) w) as [v w' e]. reflexivity.
+Qed.
+
+(* --- A, ACTIVE: ResendRequest(b, 0) over k journaled application messages and m + 1 journaled Logons *)
+Lemma recv_resend_request_gen : forall ni lt si pre ins b i k m L,
+  all_lt ni ins -> keys_lt b pre -> 0 < ni < I64MAX -> 0 < b ->
+  L = b + Z.of_nat k + Z.of_nat m -> L < I64MAX -> si = ni - 1 ->
+  process_message cfgA (recv_of cfgA (wrr cfgB ni b)) NOW0
+    (W 17 1 ni (L + 1) 0 lt true L si (pre ++ rows_app b i k ++ logons (b + Z.of_nat k) (S m)) ins)
+  = mkR (inl tt)
+        (W 17 1 (ni + 1) (L + 1) 0 NOW0 true L ni (pre ++ rows_app b i k ++ logons (b + Z.of_nat k) (S m)) (ins ++ [ni]))
+        ([State 10] ++ map Wire (frames_pd b i k) ++ [Wire (wgf cfgA (b + Z.of_nat k) (L + 1)); State 17]).
+Proof.
+  intros * K1 K2 B1 B2 EL B3 ->. unfold W, process_message, validate_integrity.
+  pose proof (existsb_lt _ _ K1) as HK1.
+  timeout 100 (ev_with ltac:(rewrite ?HK1)).
+  match goal with |- context [sort_rows (filter ?f ?l)] =>
+    replace (sort_rows (filter f l)) with (rows_app b i k ++ logons (b + Z.of_nat k) (S m))
+      by (symmetry; apply recover_range_gen; [exact K2 | lia]) end.
+  match goal with |- context [replay_loop ?c ?l ?a ?g ?w] =>
+    replace (replay_loop c l a g w)
+      with (prepend (map Wire (frames_pd b i k))
+              (replay_loop cfgA (logons (b + Z.of_nat k) (S m) ++ []) (b + Z.of_nat k) b w))
+      by (rewrite app_nil_r; symmetry; apply replay_apps; [lia | lia | unfold I64MAX; lia]) end.
+  rewrite replay_logons by (unfold I64MAX; lia).
+  timeout 100 (ev_with ltac:(rewrite ?HK1)).
+  subst L. fin.
+Qed.
+
+(* --- B, waiting for the resend: the gap fill  ni -> e  that reaches the watermark returns it to ACTIVE *)
+Lemma recv_gf_awaiting_gen : forall ni e mr lt no so si rows ins,
+  all_lt ni ins -> keys_lt no rows -> 0 < ni < e -> 0 < mr <= e - 1 -> e <= I64MAX -> 0 < no <= I64MAX ->
+  so = no - 1 -> si = ni - 1 ->
+  process_message cfgB (recv_of cfgB (wgf cfgA ni e)) NOW0 (W 12 2 ni no mr lt true so si rows ins)
+  = mkR (inl tt) (W 17 2 e no 0 NOW0 true so ni rows (ins ++ [ni])) [State 17].
+Proof.
+  intros * K1 K2 B1 B2 B3 B4 -> ->. unfold W, process_message, validate_integrity.
+  pose proof (existsb_lt _ _ K1) as HK1.
+  timeout 100 (ev_with ltac:(rewrite ?(filter_ins_lt _ _ K1) by lia; rewrite ?(filter_rows_lt _ _ K2) by lia; rewrite ?HK1)).
+  fin.
+Qed.
+
+(* the network just after a reconnect + Logon of A, in general position *)
+Definition net_rec (na nb b i : Z) (k m : nat) (pre rowsB : list (Z * msg)) (insA insB : list Z)
+                   (G : list (option str)) (SA : list str) (id : Z) : net :=
+  let L := b + Z.of_nat k + Z.of_nat m in
+  mkNet (W 7 1 na (L + 1) 0 0 true L (na - 1) (pre ++ rows_app b i k ++ logons (b + Z.of_nat k) (S m)) insA)
+        (W 6 2 b nb 0 0 true (nb - 1) (b - 1) rowsB insB)
+        [wlogon cfgA L] [] [] G SA [] id.
+
+Definition net_rec_done (na nb b i : Z) (k m : nat) (pre rowsB : list (Z * msg)) (insA insB : list Z)
+                        (G : list (option str)) (SA : list str) (id : Z) : net :=
+  let L := b + Z.of_nat k + Z.of_nat m in
+  mkNet (W 17 1 (na + 2) (L + 1) 0 NOW0 true L (na + 1) (pre ++ rows_app b i k ++ logons (b + Z.of_nat k) (S m))
+           (insA ++ [na; na + 1]))
+        (W 17 2 (L + 1) (nb + 2) 0 NOW0 true (nb + 1) (b + Z.of_nat k)
+           (rowsB ++ [(nb, wlogon cfgB nb); (nb + 1, wrr cfgB (nb + 1) b)])
+           (insB ++ nums b k ++ [b + Z.of_nat k]))
+        [] [] [] (G ++ map Some (texts i k)) SA [] id.
+
+Lemma recovery_gen : forall na nb b i k m pre rowsB insA insB G SA id f,
+  na = nb -> (0 < k + m)%nat ->
+  keys_lt b pre -> keys_lt nb rowsB -> all_lt na insA -> all_lt b insB ->
+  0 < na -> 0 < b -> b + Z.of_nat k + Z.of_nat m + 2 <= I64MAX -> nb + 3 <= I64MAX ->
+  drain (3 + (k + S f)) (net_rec na nb b i k m pre rowsB insA insB G SA id)
+  = net_rec_done na nb b i k m pre rowsB insA insB G SA id.
+Proof.
+  intros * -> KM K1 K2 K3 K4 B1 B2 B3 B4. unfold net_rec.
+  set (L := b + Z.of_nat k + Z.of_nat m) in *.
+  cbn [Nat.add].
+  (* B: Logon numbered above the expected number *)
+  rewrite drain_S. unfold pending at 1. nopen. unfold do_deliver. nopen.
+  rewrite (recv_logon_high b nb (nb - 1) (b - 1) rowsB insB L);
+    [ | exact K2 | unfold L; lia | unfold I64MAX in *; lia | unfold I64MAX in *; lia | lia ].
+  nopen.
+  (* A: Logon reply *)
+  rewrite drain_S. nopen. unfold do_deliver. nopen.
+  rewrite (recv_logon_reply nb (L + 1) L (nb - 1) _ insA);
+    [ | exact K3 | unfold I64MAX in *; lia | lia ].
+  nopen.
+  (* A: ResendRequest *)
+  rewrite drain_S. nopen. unfold do_deliver. nopen.
+  rewrite (recv_resend_request_gen (nb + 1) NOW0 nb pre (insA ++ [nb]) b i k m L);
+    [ | apply Forall_app; split; [eapply all_lt_weaken; [exact K3|lia] | repeat constructor; lia]
+      | exact K1 | unfold I64MAX in *; lia | lia | reflexivity | unfold I64MAX in *; lia | lia ].
+  nopen. refold. rewrite wires_app, apps_app, wires_map_wire, apps_map_wire. nopen.
+  assert (KB : keys_lt (nb + 2) (rowsB ++ [(nb, wlogon cfgB nb); (nb + 1, wrr cfgB (nb + 1) b)])).
+  { apply keys_lt_app; [eapply keys_lt_weaken; [exact K2|lia]|]. repeat constructor; cbn [fst]; lia. }
+  destruct k as [|k].
+  - (* no application message missing: the gap fill over the Logons only *)
+    unfold frames_pd. cbn [gen app Nat.add]. change (Z.of_nat 0) with 0 in *. replace (b + 0) with b in * by lia.
+    rewrite drain_S. unfold pending at 1. nopen. unfold do_deliver. nopen.
+    rewrite (recv_gf_awaiting_gen b (L + 1) L 0 (nb + 2) (nb + 1) (b - 1));
+      [ | exact K4 | exact KB | unfold L; lia | unfold L; lia | unfold I64MAX in *; lia
+        | unfold I64MAX in *; lia | lia | lia ].
+    nopen. rewrite drain_quiet; [ | reflexivity | reflexivity ].
+    unfold net_rec_done. fold L. unfold nums, texts. cbn [gen map]. rewrite ?app_nil_r, <- ?app_assoc. cbn [app].
+    repeat (first [ reflexivity | lia | f_equal ]).
+  - (* the k + 1 retransmissions, then the gap fill *)
+    rewrite (drain_pd k (S f) b i L 0 (nb + 2) (nb + 1) (b - 1));
+      [ | exact K4 | lia | unfold L; lia | unfold I64MAX in *; lia | lia ].
+    rewrite drain_S. unfold pending at 1. nopen. unfold do_deliver. nopen.
+    rewrite (recv_gf_awaiting_gen (b + Z.of_nat (S k)) (L + 1) L NOW0 (nb + 2) (nb + 1) (b - 1 + Z.of_nat (S k)));
+      [ | apply Forall_app; split; [eapply all_lt_weaken; [exact K4|lia] | apply all_lt_nums; lia]
+        | exact KB | unfold L; lia | unfold L; lia | unfold I64MAX in *; lia
+        | unfold I64MAX in *; lia | lia | lia ].
+    nopen. rewrite drain_quiet; [ | reflexivity | reflexivity ].
+    unfold net_rec_done. fold L. rewrite ?app_nil_r, <- ?app_assoc. cbn [app].
+    repeat (first [ reflexivity | lia | f_equal ]).
+Qed.
+
+
+(* --- the transport is lost in any connected state *)
+Lemma disconnect_conn : forall c s r ni no mr lt so si rows ins,
+  3 < s ->
+  disconnect c ST_DISC_BROKEN None (W s r ni no mr lt true so si rows ins)
+  = mkR (inl tt) (W 3 r ni no 0 0 false so si rows ins) [State 3; OnDisconnect].
+Proof. intros * S. unfold W. ev. reflexivity. Qed.
+
+Definition lt_after (lt : Z) (j : nat) : Z := match j with O => lt | S _ => NOW0 end.
+
+(* j retransmitted application messages reach B while it waits for the resend (explicit deliveries) *)
+Lemma delivers_pd : forall j s i mr lt nob sob si rowsb insb wav rest bav gav gbv sav sbv id,
+  all_lt s insb -> 0 < s -> s + Z.of_nat j <= mr -> mr <= I64MAX -> si = s - 1 ->
+  run (mkNet wav (W 12 2 s nob mr lt true sob si rowsb insb) (frames_pd s i j ++ rest) bav gav gbv sav sbv id)
+      (repeat (ADeliver SB) j)
+  = mkNet wav (W 12 2 (s + Z.of_nat j) nob mr (lt_after lt j) true sob (si + Z.of_nat j) rowsb (insb ++ nums s j))
+          rest bav gav (gbv ++ map Some (texts i j)) sav sbv id.
+Proof.
+  induction j as [|j IH]; intros * K B1 B2 B3 E.
+  - cbn. rewrite !app_nil_r. replace (s + 0) with s by lia. replace (si + 0) with si by lia. reflexivity.
+  - subst si. unfold frames_pd. cbn [gen app repeat run fold_left]. fold (frames_pd (s + 1) (i + 1) j).
+    match goal with |- fold_left ?f ?l ?x = _ => change (fold_left f l x) with (run x l) end.
+    unfold step, do_deliver. nopen.
+    rewrite (recv_pd_awaiting s nob mr lt sob (s - 1) rowsb insb i K) by (unfold I64MAX in *; lia).
+    nopen. rewrite text_of_pd, ?app_nil_r.
+    rewrite IH; [ | | lia | lia | lia | lia ].
+    + unfold nums, texts, lt_after. cbn [gen map]. rewrite <- !app_assoc. cbn [app].
+      destruct j; repeat (first [ reflexivity | lia | f_equal ]).
+    + apply Forall_app. split; [eapply all_lt_weaken; [exact K|lia]|]. repeat constructor. lia.
+Qed.
+
+(* one more break: after the reconnect B answers the Logon (reply + ResendRequest), A services the request,
+   j of the k retransmissions reach B, and the link breaks again with the rest and the gap fill in flight;
+   the next reconnect leads to the same situation with other numbers *)
+Definition round (j : nat) : list action :=
+  [ADeliver SB; ADeliver SA; ADeliver SA] ++ repeat (ADeliver SB) j ++ [ABreak; AReconnect].
+
+Lemma rec_step : forall na nb b i k m pre rowsB insA insB G SA id j,
+  na = nb -> (0 < k + m)%nat -> (j <= k)%nat ->
+  keys_lt b pre -> keys_lt nb rowsB -> all_lt na insA -> all_lt b insB ->
+  0 < na -> 0 < b -> b + Z.of_nat k + Z.of_nat m + 3 <= I64MAX -> nb + 3 <= I64MAX ->
+  run (net_rec na nb b i k m pre rowsB insA insB G SA id) (round j)
+  = net_rec (na + 2) (nb + 2) (b + Z.of_nat j) (i + Z.of_nat j) (k - j) (S m)
+            (pre ++ rows_app b i j) (rowsB ++ [(nb, wlogon cfgB nb); (nb + 1, wrr cfgB (nb + 1) b)])
+            (insA ++ [na; na + 1]) (insB ++ nums b j) (G ++ map Some (texts i j)) SA id.
+Proof.
+  intros * -> KM J K1 K2 K3 K4 B1 B2 B3 B4. unfold net_rec, round.
+  set (L := b + Z.of_nat k + Z.of_nat m) in *.
+  rewrite run_app. cbn [run fold_left]. unfold step.
+  (* B: Logon numbered above the expected number *)
+  unfold do_deliver at 3. nopen.
+  rewrite (recv_logon_high b nb (nb - 1) (b - 1) rowsB insB L);
+    [ | exact K2 | unfold L; lia | unfold I64MAX in *; lia | unfold I64MAX in *; lia | lia ].
+  nopen.
+  (* A: Logon reply *)
+  nopen.
+  rewrite (recv_logon_reply nb (L + 1) L (nb - 1) _ insA);
+    [ | exact K3 | unfold I64MAX in *; lia | lia ].
+  nopen.
+  (* A: ResendRequest *)
+  nopen.
+  rewrite (recv_resend_request_gen (nb + 1) NOW0 nb pre (insA ++ [nb]) b i k m L);
+    [ | apply Forall_app; split; [eapply all_lt_weaken; [exact K3|lia] | repeat constructor; lia]
+      | exact K1 | unfold I64MAX in *; lia | lia | reflexivity | unfold I64MAX in *; lia | lia ].
+  nopen. refold. rewrite wires_app, apps_app, wires_map_wire, apps_map_wire. nopen.
+  (* B: j of the k retransmissions *)
+  replace k with (j + (k - j))%nat at 3 by lia.
+  unfold frames_pd at 1. rewrite gen_app. fold (frames_pd b i j). rewrite <- (app_assoc (frames_pd b i j)).
+  rewrite run_app.
+  rewrite (delivers_pd j b i L 0 (nb + 2) (nb + 1) (b - 1));
+    [ | exact K4 | lia | unfold L; lia | unfold I64MAX in *; lia | lia ].
+  (* the link breaks, both ends disconnect, new transport, Logon L + 1 *)
+  cbn [run fold_left]. unfold step, do_break. nopen.
+  rewrite disconnect_active, disconnect_conn by lia. nopen.
+  unfold do_reconnect. nopen.
+  change (set_wr true (set_st ST_NCE (W 3 1 (nb + 1 + 1) (L + 1) 0 0 false L (nb + 1)
+            (pre ++ rows_app b i k ++ logons (b + Z.of_nat k) (S m)) ((insA ++ [nb]) ++ [nb + 1]))))
+    with (W 6 1 (nb + 1 + 1) (L + 1) 0 0 true L (nb + 1)
+            (pre ++ rows_app b i k ++ logons (b + Z.of_nat k) (S m)) ((insA ++ [nb]) ++ [nb + 1])).
+  change (set_wr true (set_st ST_NCE (W 3 2 (b + Z.of_nat j) (nb + 2) 0 0 false (nb + 1) (b - 1 + Z.of_nat j)
+            (rowsB ++ [(nb, wlogon cfgB nb); (nb + 1, wrr cfgB (nb + 1) b)]) (insB ++ nums b j))))
+    with (W 6 2 (b + Z.of_nat j) (nb + 2) 0 0 true (nb + 1) (b - 1 + Z.of_nat j)
+            (rowsB ++ [(nb, wlogon cfgB nb); (nb + 1, wrr cfgB (nb + 1) b)]) (insB ++ nums b j)).
+  replace L with (L + 1 - 1) at 2 4 6 by lia.
+  rewrite send_logon_step; [ | | unfold I64MAX in *; lia ].
+  2:{ repeat apply keys_lt_app; [eapply keys_lt_weaken; [exact K1|unfold L; lia] | apply keys_lt_gen; unfold L; lia
+                                | apply keys_lt_gen; unfold L; lia ]. }
+  nopen.
+  assert (ER : (pre ++ rows_app b i k ++ logons (b + Z.of_nat k) (S m)) ++ [(L + 1, wlogon cfgA (L + 1))]
+               = (pre ++ rows_app b i j) ++ rows_app (b + Z.of_nat j) (i + Z.of_nat j) (k - j)
+                 ++ logons (b + Z.of_nat j + Z.of_nat (k - j)) (S (S m))).
+  { replace (b + Z.of_nat j + Z.of_nat (k - j)) with (b + Z.of_nat k) by lia.
+    replace (rows_app b i k) with (rows_app b i j ++ rows_app (b + Z.of_nat j) (i + Z.of_nat j) (k - j)).
+    2:{ unfold rows_app. rewrite <- gen_app. replace (j + (k - j))%nat with k by lia. reflexivity. }
+    unfold logons at 2. rewrite (gen_snoc _ _ (S m)). fold (logons (b + Z.of_nat k) (S m)).
+    replace (b + Z.of_nat k + Z.of_nat (S m)) with (L + 1) by (unfold L; lia).
+    rewrite <- !app_assoc. reflexivity. }
+  rewrite ER. rewrite ?app_nil_r, <- ?app_assoc. cbn [app].
+  replace (b + Z.of_nat j + Z.of_nat (k - j) + Z.of_nat (S m)) with (L + 1) by (unfold L; lia).
+  repeat (first [ reflexivity | lia | f_equal ]).
+Qed.
+
+
+
+(* any number of further breaks of that kind: round j1, round j2, ... *)
+Fixpoint fits (k : nat) (js : list nat) : Prop :=
+  match js with
+  | [] => True
+  | j :: r => (j <= k)%nat /\ fits (k - j) r
+  end.
+
+Definition rounds (js : list nat) : list action := flat_map round js.
+
+Definition settled_ok (s : net) (G : list (option str)) (SA : list str) : Prop :=
+  quiescent s = true
+  /\ st (wa s) = ST_ACTIVE /\ st (wb s) = ST_ACTIVE
+  /\ nin (wa s) = nout (wb s) /\ nin (wb s) = nout (wa s)
+  /\ gb s = G /\ sa s = SA /\ ga s = [] /\ sb s = [].
+
+Lemma breaks_gen : forall js na nb b i k m pre rowsB insA insB G SA id f,
+  na = nb -> (0 < k + m)%nat -> fits k js ->
+  keys_lt b pre -> keys_lt nb rowsB -> all_lt na insA -> all_lt b insB ->
+  0 < na -> 0 < b ->
+  b + Z.of_nat k + Z.of_nat m + 2 + Z.of_nat (length js) <= I64MAX ->
+  nb + 3 + 2 * Z.of_nat (length js) <= I64MAX ->
+  settled_ok (drain (3 + (k + S f)) (run (net_rec na nb b i k m pre rowsB insA insB G SA id) (rounds js)))
+             (G ++ map Some (texts i k)) SA.
+Proof.
+  induction js as [|j r IH]; intros * E KM F K1 K2 K3 K4 B1 B2 B3 B4.
+  - cbn [rounds flat_map run fold_left length] in *.
+    rewrite recovery_gen; try assumption; [ | lia | lia ].
+    unfold settled_ok, net_rec_done. cbn [wa wb ab ba ga gb sa sb nid].
+    subst na. repeat split; try reflexivity; try (unfold W; cbn [nin nout]; lia).
+  - destruct F as [J F]. cbn [rounds flat_map]. fold (rounds r). rewrite run_app.
+    cbn [length] in B3, B4.
+    rewrite rec_step; try assumption; [ | lia | lia ].
+    replace (3 + (k + S f))%nat with (3 + ((k - j) + S (f + j)))%nat by lia.
+    replace (G ++ map Some (texts i k)) with ((G ++ map Some (texts i j)) ++ map Some (texts (i + Z.of_nat j) (k - j))).
+    2:{ rewrite <- app_assoc, <- map_app. f_equal. f_equal. unfold texts. rewrite <- gen_app.
+        replace (j + (k - j))%nat with k by lia. reflexivity. }
+    apply IH; try lia; try assumption.
+    + apply keys_lt_app; [eapply keys_lt_weaken; [exact K1|lia] | apply keys_lt_gen; lia].
+    + apply keys_lt_app; [eapply keys_lt_weaken; [exact K2|lia] | repeat constructor; cbn [fst]; lia].
+    + apply Forall_app; split; [eapply all_lt_weaken; [exact K3|lia] | repeat constructor; lia].
+    + apply Forall_app; split; [eapply all_lt_weaken; [exact K4|lia] | apply all_lt_nums; lia].
+Qed.
+
+Lemma reconnected_is_rec : forall d k,
+  net_reconnected d (S k)
+  = net_rec 2 2 (2 + Z.of_nat d) (1 + Z.of_nat d) (S k) 0 (LA1 :: rows_app 2 1 d) [LB1] [1] (1 :: nums 2 d)
+            (map Some (texts 1 d)) (texts 1 (d + S k)) (1 + Z.of_nat (d + S k)).
+Proof.
+  intros d k. unfold net_reconnected, net_rec.
+  replace (rows_app 2 1 (d + S k)) with (rows_app 2 1 d ++ rows_app (2 + Z.of_nat d) (1 + Z.of_nat d) (S k))
+    by (unfold rows_app; rewrite gen_app; reflexivity).
+  unfold logons. cbn [gen]. rewrite <- ?app_assoc. cbn [app].
+  replace (2 + Z.of_nat d + Z.of_nat (S k) + Z.of_nat 0) with (2 + Z.of_nat (d + S k)) by lia.
+  replace (2 + Z.of_nat d + Z.of_nat (S k)) with (2 + Z.of_nat (d + S k)) by lia.
+  repeat (first [ reflexivity | lia | f_equal ]).
+Qed.
+
+(* A sends n = d + k + 1 messages, the last k + 1 are in flight at the first break; then any number of
+   further breaks, each after the ResendRequest has been serviced and j_t more retransmissions got through *)
+Theorem repeated_breaks : forall d k js fuel,
+  fits (S k) js ->
+  Z.of_nat (d + S k) + 5 + 2 * Z.of_nat (length js) <= I64MAX -> (S k + 4 <= fuel)%nat ->
+  recovered (drain fuel (run net0 (sched_before d (S k) ++ [ABreak; AReconnect] ++ rounds js))) (d + S k).
+Proof.
+  intros d k js fuel F B Fu.
+  assert (B' : Z.of_nat (d + S k) + 3 <= I64MAX) by lia.
+  rewrite app_assoc, run_app.
+  replace (sched_before d (S k) ++ [ABreak; AReconnect]) with (sched_prefix d (S k) ++ [AReconnect])
+    by (unfold sched_prefix; rewrite <- app_assoc; reflexivity).
+  rewrite run_app, at_break by exact B'. cbn [run fold_left]. unfold step.
+  rewrite at_reconnect by exact B'. rewrite reconnected_is_rec.
+  replace fuel with (3 + (S k + S (fuel - (S k + 4))))%nat by lia.
+  assert (P1 : keys_lt (2 + Z.of_nat d) (LA1 :: rows_app 2 1 d))
+    by (constructor; [unfold LA1; cbn [fst]; lia | apply keys_lt_gen; lia]).
+  assert (P2 : keys_lt 2 [LB1]) by (repeat constructor; unfold LB1; cbn [fst]; lia).
+  assert (P3 : all_lt 2 [1]) by (repeat constructor; lia).
+  assert (P4 : all_lt (2 + Z.of_nat d) (1 :: nums 2 d)) by (constructor; [lia | apply all_lt_nums; lia]).
+  pose proof (breaks_gen js 2 2 (2 + Z.of_nat d) (1 + Z.of_nat d) (S k) 0 (LA1 :: rows_app 2 1 d) [LB1] [1]
+                (1 :: nums 2 d) (map Some (texts 1 d)) (texts 1 (d + S k)) (1 + Z.of_nat (d + S k))
+                (fuel - (S k + 4)) eq_refl ltac:(lia) F P1 P2 P3 P4 ltac:(lia) ltac:(lia) ltac:(lia) ltac:(lia)) as H.
+  destruct H as [Q [A1 [A2 [N1 [N2 [G1 [S1 [G2 S2]]]]]]]].
+  rewrite <- map_app, <- texts_split in G1.
+  unfold recovered. repeat split; try assumption.
+  apply holds_intro; try assumption; [rewrite G1, S1; reflexivity | rewrite G2, S2; reflexivity].
+Qed.
+
+(* cross-check by computation: n = 5 with the last 4 in flight, then three more breaks after 1, 0 and 2 further
+   retransmissions got through *)
+Lemma repeated_breaks_instance :
+  let s := drain 20 (run net0 (sched_before 1 4 ++ [ABreak; AReconnect] ++ rounds [1; 0; 2]%nat)) in
+  holds s = true /\ gb s = map Some (texts 1 5) /\ nin (wb s) = 11 /\ nout (wa s) = 11 /\ nin (wa s) = 10 /\ nout (wb s) = 10.
+Proof. vm_compute. repeat split. Qed.
+
 (* ------------------------------------------------------------------ constants of Net.v = the code's (regenerated every run) *)
 
 Fixpoint assoc_num (k : str) (l : list (str * N)) : option N :=
